@@ -2,7 +2,11 @@
 //! vharness — correspondence / search harness for the Lean model of anoncreds-v2-rs.
 //!   vharness gen <PROPERTY> <tier> <seed> <outdir>    run the real code, write ops.txt / impl.txt / gen.json
 //!   vharness judge <outdir>                           compare model.txt with impl.txt → judge.json
+mod adv;
+mod c01;
+mod c02;
 mod c03;
+mod c11;
 mod claims;
 mod common;
 mod dbg;
@@ -28,6 +32,10 @@ fn gen(prop: &str, tier: &str, seed: u64, out: &str) {
         "C13" => issuer::gen_c13(&mut em, &mut rng),
         "C03" => c03::gen_c03(&mut em, &mut rng),
         "C17" => sigs::gen_c17(&mut em, &mut rng),
+        "C02" => c02::gen_c02(&mut em, &mut rng),
+        "C01" => c01::gen_c01(&mut em, &mut rng),
+        "C11" => c11::gen_c11(&mut em, &mut rng),
+        "C04" => c11::gen_c04(&mut em, &mut rng),
         _ => {
             eprintln!("unknown property {}", prop);
             std::process::exit(2);
